@@ -104,7 +104,7 @@ class C03Machine(M.MCMachine):
         if self.accepted_before:
             self.nontriv = True
         kind = "rejected" if verdict is False else "failed"
-        entry = self.scn["entries"][int(name[1:])]
+        entry = self.entry_expr(name)
         cls = f"{kind}:{'composite' if entry['t'] in ('add', 'mul') else entry['t']}"
         self.labels.add(cls)
         if self.scn["atoms"]["constraints"] and any(l["t"] == "exch" for l in S.expr_leaves(entry)):
